@@ -267,14 +267,30 @@ class VerticaQueryBuilder(QueryBuilder):
     def hint(self, label: str) -> "VerticaQueryBuilder":
         self._hint = label
 
-    def get_sql(self, *args: Any, **kwargs: Any) -> str:
-        sql = super().get_sql(*args, **kwargs)
+    def _with_label(self, keyword: str, sql: str) -> str:
+        # the label follows the keyword of the statement, wherever the statement starts (WITH ..., parentheses)
+        if self._hint is None:
+            return sql
+        return sql.replace(keyword, "{keyword} /*+label({hint})*/".format(keyword=keyword, hint=self._hint), 1)
 
-        if self._hint is not None:
-            start = 1 if sql.startswith("(") else 0
-            sql = "".join([sql[: start + 7], "/*+label({hint})*/".format(hint=self._hint), sql[start + 6 :]])
+    def _select_sql(self, **kwargs: Any) -> str:
+        sql = super()._select_sql(**kwargs)
+        if self._insert_table and not self._select_into:
+            # INSERT ... SELECT: the INSERT keyword carries the label
+            return sql
+        return self._with_label("SELECT", sql)
 
-        return sql
+    def _insert_sql(self, **kwargs: Any) -> str:
+        return self._with_label("INSERT", super()._insert_sql(**kwargs))
+
+    def _replace_sql(self, **kwargs: Any) -> str:
+        return self._with_label("REPLACE", super()._replace_sql(**kwargs))
+
+    def _update_sql(self, **kwargs: Any) -> str:
+        return self._with_label("UPDATE", super()._update_sql(**kwargs))
+
+    def _delete_sql(self, **kwargs: Any) -> str:
+        return self._with_label("DELETE", super()._delete_sql(**kwargs))
 
 
 class VerticaCreateQueryBuilder(CreateQueryBuilder):
